@@ -47,6 +47,7 @@ def sink_of_iteration(body, bb):
         name = c.get("name")
         if name == "collect":
             target = (c.get("args") or ["", ""])[-1]
+            body._last_collect_bb = i
             return ("collect", target)
         if name == "extend":
             return ("extend", c.get("self", "") or " ".join(c.get("args", [])))
@@ -56,6 +57,32 @@ def sink_of_iteration(body, bb):
             continue
         return ("other", c.get("path"))
     return ("other", "chain too long")
+
+
+def sink_bb(body, bb):
+    return getattr(body, "_last_collect_bb", bb)
+
+
+def sorted_before_use(body, bb):
+    """The Vec collected by the call in block bb is put into canonical order (`sort` / `sort_unstable`, i.e. by the full `Ord` of
+    the elements) before anything else reads it: the hash order it was collected in cannot be observed."""
+    def uses_collected(o):
+        return mir.contains(o, lambda x: isinstance(x, tuple) and x and x[0] == "call" and len(x) > 3 and x[3] == bb)
+    sorts, others = [], []
+    for i, t in body.calls():
+        if i == bb:
+            continue
+        if any(uses_collected(body.origin_operand(a)) for a in t["args"]):
+            c = t.get("callee") or {}
+            if c.get("name") in ("sort", "sort_unstable") and "slice" in (c.get("path") or ""):
+                sorts.append(i)
+            elif c.get("name") in ("deref_mut", "as_mut_slice", "deref", "as_mut"):
+                continue
+            else:
+                others.append(i)
+    if len(sorts) != 1:
+        return False
+    return body.dominates(bb, sorts[0]) and all(body.dominates(sorts[0], o) for o in others)
 
 
 def table_entries(fn, adt_suffix):
@@ -99,6 +126,7 @@ def run(tier):
 
     # ---- (R) hash-order sites --------------------------------------------------------------------------
     n_sites = 0
+    n_handed = 0
     for p in sorted(reach):
         f = fns[p]
         body = mir.Body(f)
@@ -109,6 +137,12 @@ def run(tier):
             name = c.get("name")
             selfty = c.get("self", "") or ""
             res = c.get("res") or {}
+            for a in callgraph.handed_over_iterables(c):
+                n_handed += 1
+                ck.ob("R-hash-order-into-output", "%s/%s(%s)" % (p, name, a[:60].replace(" ", "")), False,
+                      "%s (%s:%s) hands %s to %s, which iterates it in hash order into %s: output order differs between processes"
+                      % (p, f["span"].split(":")[0], t.get("line"), a[:100], c["path"], (selfty or "its receiver")[:80]),
+                      detail={"fn": p, "line": t.get("line"), "iterates": a, "callee": c["path"], "path_from_main": cg.path_to(p)})
             recv = " ".join([c["path"], selfty, res.get("impl_self", "") or ""] + c.get("args", [])[:1])
             is_hash_recv = ("std::collections::HashMap<" in recv or "std::collections::HashSet<" in recv) and "hash_map::" not in selfty.split("<")[0] and "hash_set::" not in selfty.split("<")[0]
             if not is_hash_recv or name not in callgraph.ORDER_EXPOSING:
@@ -121,6 +155,9 @@ def run(tier):
             kind, what = sink_of_iteration(body, bb)
             if kind in ("collect", "extend") and any(what.startswith(u) or u in what for u in UNORDERED):
                 ck.ob("R-order-free-sink", key, True, sample={"fn": p, "iterates": elem[:100], "sink": what[:100]})
+                continue
+            if kind == "collect" and what.startswith("std::vec::Vec<") and sorted_before_use(body, sink_bb(body, bb)):
+                ck.ob("R-order-free-sink", key, True, sample={"fn": p, "iterates": elem[:100], "sink": "Vec, sorted before any other use"})
                 continue
             exc = None
             for (fn_, tyname), v in SINGLE_SURVIVOR.items():
@@ -154,6 +191,10 @@ def run(tier):
     neg = cfn.get("cgv_controls::hash_to_hash")
     if ck.require(pos is not None and neg is not None, "control functions"):
         ck.require(len(callgraph.hash_order_sites(pos)) >= 1, "control hash_order_into_output is seen as a hash-order site")
+        pos2, neg2 = cfn.get("cgv_controls::hash_passed_as_iterable"), cfn.get("cgv_controls::hash_passed_to_sorted")
+        if ck.require(pos2 is not None and neg2 is not None, "control functions (handed-over iterables)"):
+            ck.require(len(callgraph.hash_order_sites(pos2)) == 1, "control hash_passed_as_iterable (String::extend(set)) is seen as a hash-order site")
+            ck.require(len(callgraph.hash_order_sites(neg2)) == 0, "control hash_passed_to_sorted (BTreeSet::extend(set)) is order-free")
         nb = mir.Body(neg)
         sites = [bb for bb, t in nb.calls() if (t.get("callee") or {}).get("name") == "into_iter" and "HashMap<" in " ".join((t.get("callee") or {}).get("args", []))]
         ck.require(len(sites) == 1 and sink_of_iteration(nb, sites[0])[0] == "collect", "control hash_to_hash is classified as an order-free sink")
